@@ -109,10 +109,18 @@ def extract(repo):
     if not m:
         raise ValueError("ReadReal: conversion / assignment shape changed")
     tail = m.group(1)
+    real_unless_blank = False
     if tail.strip() == "":
         real_rep = False
     elif re.fullmatch(r"\s*if\s*\(\s*(?:i\s*>\s*0|!\s*buf\.empty\(\))\s*\)\s*\{[^{}]*err->GreaterSeverity\(\s*SEVERITY_WARNING\s*\)\s*;[^{}]*\}\s*", tail, re.S):
         real_rep = True
+    elif re.fullmatch(r"\s*if\s*\(\s*!\s*blank\s*\)\s*\{[^{}]*err->GreaterSeverity\(\s*SEVERITY_WARNING\s*\)\s*;[^{}]*\}\s*", tail, re.S):
+        # reported unless the input was blank: `blank` must be the eof test right after the first `in >> ws`
+        if not re.search(r"in\s*>>\s*ws\s*;\s*bool\s+blank\s*=\s*in\.eof\(\)\s*;\s*c\s*=\s*in\.peek\(\)\s*;", rr) \
+                or len(re.findall(r"\bblank\b", rr)) != 2:
+            raise ValueError("ReadReal: `blank` is not `in.eof()` taken right after the leading `in >> ws`")
+        real_rep = True
+        real_unless_blank = True
     else:
         raise ValueError(f"ReadReal: unknown code in the failing branch: {tail.strip()[:120]!r}")
     # the checks ReadReal makes while collecting, in order (the model's realCollect follows exactly these)
@@ -188,8 +196,21 @@ def extract(repo):
         cri_comments = True
     else:
         raise ValueError(f"CheckRemainingInput: unknown separator skipping: {skip[:100]!r}")
-    if not re.search(r"for\(\s*in\.get\(\s*c\s*\);\s*in\s*&&\s*!strchr\(\s*delimiterList,\s*c\s*\);\s*in\.get\(\s*c\s*\)\s*\)", cri) \
-            and not re.search(r"strchr\(\s*delimiterList,\s*c\s*\)", cri):
+    # the delimiter test, three sites: next character, recovery loop, character the loop stopped at
+    bare = [r"if\(\s*strchr\(\s*delimiterList,\s*c\s*\)\s*==\s*NULL\s*\)",
+            r"for\(\s*in\.get\(\s*c\s*\);\s*in\s*&&\s*!strchr\(\s*delimiterList,\s*c\s*\);\s*in\.get\(\s*c\s*\)\s*\)",
+            r"if\(\s*strchr\(\s*delimiterList,\s*c\s*\)\s*!=\s*NULL\s*\)"]
+    guarded = [r"if\(\s*!IsDelimiter\(\s*delimiterList,\s*c\s*\)\s*\)",
+               r"for\(\s*in\.get\(\s*c\s*\);\s*in\s*&&\s*!IsDelimiter\(\s*delimiterList,\s*c\s*\);\s*in\.get\(\s*c\s*\)\s*\)",
+               r"if\(\s*IsDelimiter\(\s*delimiterList,\s*c\s*\)\s*\)"]
+    if all(re.search(p, cri) for p in bare) and "IsDelimiter" not in cri:
+        nul_is_delim = True          # strchr() matches the terminating NUL of the list
+    elif all(re.search(p, cri) for p in guarded) and "strchr" not in cri:
+        isd = _strip(_body(st, r"static\s+bool\s+IsDelimiter\(\s*const\s+char\s*\*\s*delimiterList,\s*char\s+c\s*\)", "IsDelimiter"))
+        if not re.fullmatch(r"\{\s*return\s+c\s*!=\s*'\\0'\s*&&\s*strchr\(\s*delimiterList,\s*c\s*\)\s*!=\s*NULL\s*;\s*\}", isd):
+            raise ValueError(f"IsDelimiter: body changed: {isd[:100]!r}")
+        nul_is_delim = False
+    else:
         raise ValueError("CheckRemainingInput: delimiter test changed")
 
     # ---- ReadEntityRef: the id is an `int` read with the formatted extractor (the model's extractInt32: range-checked)
@@ -197,6 +218,16 @@ def extract(repo):
     rer = _strip(_body(ai, r"SDAI_Application_instance\s*\*\s*ReadEntityRef\(\s*istream\s*&\s*in,", "ReadEntityRef"))
     if not re.search(r"int\s+id\s*=\s*-1\s*;\s*in\s*>>\s*id\s*;\s*if\(\s*in\.fail\(\)\s*\)", rer):
         raise ValueError("ReadEntityRef: the id is no longer read with `int id = -1; in >> id; if( in.fail() )`")
+    m = re.search(r"default\s*:\s*\{(.*?)CheckRemainingInput\(\s*in,\s*err,\s*\"Entity Reference\",\s*tokenList\s*\);\s*return\s+S_ENTITY_NULL\s*;\s*\}", rer, re.S)
+    if not m or not re.search(r"in\s*>>\s*ws\s*;\s*in\s*>>\s*c\s*;\s*switch\(\s*c\s*\)", rer):
+        raise ValueError("ReadEntityRef: first character / `default:` branch changed")
+    t = m.group(1).strip()
+    if re.fullmatch(r"in\.putback\(\s*c\s*\);", t):
+        ref_reports = False
+    elif re.fullmatch(r"bool\s+gotChar\s*=\s*!in\.fail\(\);\s*in\.putback\(\s*c\s*\);\s*if\(\s*gotChar\s*&&\s*\(\s*c\s*==\s*'\\0'\s*\|\|\s*!tokenList\s*\|\|\s*!strchr\(\s*tokenList,\s*c\s*\)\s*\)\s*\)\s*\{[^{}]*err->GreaterSeverity\(\s*SEVERITY_WARNING\s*\);\s*\}", t, re.S):
+        ref_reports = True
+    else:
+        raise ValueError(f"ReadEntityRef: unknown code in the `default:` branch: {t[:120]!r}")
 
     # ---- STEPattribute::STEPread
     sr = _strip(_body(sa, r"Severity\s+STEPattribute::STEPread\(\s*istream", "STEPattribute::STEPread"))
@@ -283,7 +314,8 @@ namespace StepModel.Generated
 def lexCfg : StepModel.P21.LexCfg :=
   {{ intReportsFail := {_b(int_rep)}, realReportsFail := {_b(real_rep)}, numberReportsFail := {_b(num_rep)},
     logicalRejectsUnset := {_b(log_rej)}, binaryRejectsEmpty := {_b(bin_rej)}, dollarKeepsError := {_b(dollar_keeps)},
-    asStrUsesWriteReal := {_b(asstr_wr)}, criSkipsComments := {_b(cri_comments)}, realBuf := {real_buf}, realPrecision := {prec} }}
+    asStrUsesWriteReal := {_b(asstr_wr)}, criSkipsComments := {_b(cri_comments)}, realBuf := {real_buf}, realPrecision := {prec},
+    nulIsDelim := {_b(nul_is_delim)}, realFailUnlessBlank := {_b(real_unless_blank)}, refReportsNonRef := {_b(ref_reports)} }}
 
 /-- `SDAI_LOGICAL::element_at(0..3)` and `SDAI_BOOLEAN::element_at(0..1)` -/
 def logicalTable : List (List Nat) := [{", ".join(lst(x) for x in log_tbl)}]
